@@ -196,14 +196,14 @@ def valid_case(case):
 
 
 def run(ctx):
-    n = 2500 if ctx.quick else 60000
+    n = 15000 if ctx.quick else 150000
     ctx.hyp('strat_kexinit', n, label=1)
-    ctx.hyp('strat_probe_lists', 600 if ctx.quick else 10000, label=2)
+    ctx.hyp('strat_probe_lists', 3000 if ctx.quick else 30000, label=2)
     ssh1 = []
     masks = [(c, a) for c in range(128) for a in range(128)]
     if ctx.quick:
         ctx.rng.shuffle(masks)
-        masks = masks[:500] + [(0, 0), (0, 12), (72, 0), (127, 127)]
+        masks = masks[:4000] + [(0, 0), (0, 12), (72, 0), (127, 127)]
     for i, (c, a) in enumerate(masks):
         opts = RENDERINGS[i % len(RENDERINGS)]
         ssh1.append({'proto': 1, 'cmask': c, 'amask': a, 'opts': opts, 'flag1': bool(i % 2)})
